@@ -8,7 +8,10 @@ require (
 	go.uber.org/zap/exp v0.0.0
 )
 
-require go.uber.org/multierr v1.10.0
+require (
+	go.uber.org/multierr v1.10.0
+	gopkg.in/yaml.v3 v3.0.1
+)
 
 replace go.uber.org/zap => /repo
 
